@@ -209,8 +209,10 @@ def GetMerkleRootFromBranch (H2 : β → β → β) : List β → β → Nat →
 
 abbrev Bytes := List UInt8
 
-def paraKey : Bytes := "user.p.".toUTF8.toList
-def mainChainName : Bytes := "main".toUTF8.toList
+/-- `types.ParaKeyX` = "user.p." -/
+def paraKey : Bytes := [117, 115, 101, 114, 46, 112, 46]
+/-- `types.MainChainName` = "main" -/
+def mainChainName : Bytes := [109, 97, 105, 110]
 
 def findDot : Bytes → Nat → Option Nat
   | [], _ => none
